@@ -24,10 +24,10 @@ CONFIG = {
                 "the turn manager part is Model/Turn.v at binary64 (property C02)"],
     "assumptions": ["content uses the engine API legally: qualified attacks and EndAttack only from action / ult / insert bodies"],
     "manifest": {
-        "level_text": "Kernel-checked theorems about the model: the exit check's decision (loss, else win, else timeout iff floor(clock/100) >= limit, else continue), that every returned run stopped at an exit check with Termination as its one and last event carrying the clock that is the result's total action value, and the hit subscriber's bookkeeping (side totals grow by exactly the hit's damage, both per-cycle series keep equal length, current cycle entry = running total). That the totals equal the sums of all hits in log order and that the series are non-decreasing is checked by the trace monitor on every real run (float summation order of nested hits makes the log-order sum a statement over the reals, not binary64) (partial).",
+        "level_text": "Kernel-checked theorems about the model, for every configuration, content script set, decision sequence and run length (run level = about every terminated run `start cfg fuel = Stop s`): (a) the two totals are the left-to-right binary64 sums, from 0, of the total damage of the hits whose defender is an enemy / a character of the battle, over a list that is a permutation of the logged hits (the order in which the statistics subscriber saw them: it runs before the content's HitEnd listener, the log line is written after it, so nested hits are summed in a different order than logged; hits on ids that are not units count on neither side); without a content HitEnd listener the sums are over the log order itself; (b) the two per-cycle series always have equal length >= 1; when the clock's cycle index never decreases from one turn start to the next (decidable on the trace) both end at the totals, and when moreover no hit total is negative or NaN both are non-decreasing in the binary64 order (float-level proof: x <= x + d for x, d >= 0); (c) the total action value is the clock of the last turn start and is carried by the final Termination; the run continues past an exit check iff both sides have living units and floor(clock/100) < limit, and the result is, unchanged, the outcome of the first exit check that fails (state + the one Termination, reason loss, else win, else timeout); for configurations that describe characters first the Termination's reason agrees with the deaths announced in the trace (`reason_ok`), and under the four assumptions (characters first, no HitEnd listener, monotone cycle index, non-negative hits) the whole trace monitor `monitor_c09` accepts every terminated model run. Not proved: that the cycle index is monotone for every configuration (it is for positive speeds at the level of the reals, C02); per-function facts (exit decision, hit bookkeeping) as before.",
         "level_note": "Coq kernel; hand-written model Model/Sim.v tied by whole-trace correspondence; content is scripted harness "
                       "content registered through the exported Register functions; internal/* content is not modelled.",
-        "technique": 'Coq proofs (exit decision, stop provenance, hit bookkeeping) + whole-trace correspondence + result monitor',
+        "technique": 'Coq proofs over whole runs (frame principle over all content scripts with hit completion as one step, relation composed over queue, turns and start; binary64 order facts via Flocq) + whole-trace correspondence + result monitor',
         "design_ref": "DESIGN.md section 7, C09",
     },
 }
